@@ -335,6 +335,8 @@ func (o optSpec) String() string {
 		return fmt.Sprintf("Typed(%s:%s)", typeName(o.T), o.V)
 	case "niltyped":
 		return "Typed(nil)"
+	case "typedmulti":
+		return fmt.Sprintf("Typed(T1:%s,T3,nil@%s)", o.V, o.Sub)
 	case "nilnamed":
 		return fmt.Sprintf("Named(%q,nil)", o.Name)
 	}
@@ -351,6 +353,18 @@ func (o optSpec) arg() am.Arg {
 		return am.Typed(mkVal(o.T, o.V).Interface())
 	case "niltyped":
 		return am.Typed(nil)
+	case "typedmulti":
+		// one Typed option with several values, a nil among them at position o.T
+		vs := []interface{}{mkVal(1, o.V).Interface(), T3{"multi3"}}
+		switch o.Sub {
+		case "first":
+			vs = append([]interface{}{nil}, vs...)
+		case "mid":
+			vs = []interface{}{vs[1], nil, vs[0]}
+		case "last":
+			vs = append(vs, nil)
+		}
+		return am.Typed(vs...)
 	case "nilnamed":
 		return am.Named(o.Name, nil)
 	}
@@ -366,6 +380,8 @@ func (o optSpec) key() string {
 		return "n:" + strings.ToLower(o.Name) + "/" + o.Sub
 	case "typed":
 		return fmt.Sprintf("t:%d/", o.T)
+	case "typedmulti":
+		return "t:1/"
 	}
 	return ""
 }
@@ -401,6 +417,9 @@ func init() {
 			{Kind: "typed", T: 1, V: "t1"},
 			{Kind: "typed", T: 1, V: "t2"},
 			{Kind: "niltyped"},
+			{Kind: "typedmulti", Sub: "first", V: "m1"},
+			{Kind: "typedmulti", Sub: "mid", V: "m2"},
+			{Kind: "typedmulti", Sub: "last", V: "m3"},
 			{Kind: "nilnamed", Name: "a"},
 			{Kind: "nilopt"},
 		}
